@@ -57,6 +57,11 @@ Theorem C19_add_progress : forall cf w vs, Base cf w -> aw_stuck w = false ->
   aw_stuck (add_step cf w) = false.
 Proof. exact add_progress. Qed.
 
+(* conversely it can only return when at least c other nodes exist - the guard in the property text *)
+Theorem C19_add_needs_c_others : forall cf w, Base cf w -> aw_stuck w = false -> aw_stuck (add_step cf w) = false ->
+  ac_deg cf <= length (st_nodes (aw_st w)).
+Proof. exact add_needs_others. Qed.
+
 (* delete removes its node and exactly the edges at that node, from the network and from the locus *)
 Theorem C19_delete_removes_edges : forall cf w n, Base cf w -> In n (st_nodes (aw_st w)) ->
   let s := aw_st w in let s' := aw_st (delete_step cf w n) in
